@@ -11,7 +11,7 @@ import os
 import re
 from typing import Optional
 
-from ..core import Checker, Rule, attr_calls, callee_is, calls_in, kwarg, resolved_calls, short
+from ..core import Checker, Rule, moved_lookup, attr_calls, callee_is, calls_in, kwarg, resolved_calls, short
 from ..grammar import schema
 from ..interp import Pins, find_nodes, unparse
 from ..kinds import Kinds
@@ -197,6 +197,12 @@ def _subst(expr: ast.expr, mapping: dict[str, ast.expr]) -> ast.expr:
 
 
 # ------------------------------------------------------------------------------------------------ KIND
+def _live(ck: Checker) -> set[str]:
+    if "live_funcs" not in ck.notes:
+        ck.notes["live_funcs"] = {f.short for f in ck.prg.funcs.values()}
+    return ck.notes["live_funcs"]  # type: ignore[return-value]
+
+
 def r_kinds(ck: Checker) -> None:
     sch = schema()
     allfields = {f for k in sch.kinds.values() for f in k}
@@ -223,7 +229,7 @@ def r_kinds(ck: Checker) -> None:
             if bad is None:
                 continue
             key = (func.short, text)
-            reason = FIELD_TRIAGE.get(key)
+            reason = moved_lookup(FIELD_TRIAGE, key[0], key[1], _live(ck))
             if reason is not None:
                 ck.add(f"field {text}", True, func, node, f"base may be {bad[0]}, {bad[1]} lack `.{node.attr}` - triaged: {reason}", "", rule="C03.KIND.field")  # type: ignore[attr-defined]
                 continue
@@ -286,7 +292,7 @@ def r_throw(ck: Checker) -> None:
             if ok:
                 ck.add(f"assert {short(cond, 70)}", True, func, node, f"`assert {short(cond, 80)}` {why}", "", rule="C03.THROW.assert")
                 continue
-            reason = THROW_TRIAGE.get((func.short, cond))
+            reason = moved_lookup(THROW_TRIAGE, func.short, cond, _live(ck))
             if reason is not None:
                 ck.add(f"assert {short(cond, 70)}", True, func, node, f"`assert {short(cond, 80)}` not mechanically discharged ({why}) - triaged: {reason}", "", rule="C03.THROW.assert")
                 continue
